@@ -158,6 +158,11 @@ def run_fault_phase(w, case):
             if cutc == "full" and scenario in ("req", "req2") and case["app_kind"] == "threading":
                 # steps between arrival, worker start, answer submission and flush: let some time pass
                 w.advance(case.get("dwell", 0))
+                if fault in ("eof", "reset") and case.get("dwell", 0) == 0 and \
+                        all(o in ("slow", "very-slow") for o in case.get("outcomes", ["answer"])):
+                    # the requester is lost while its request is still being handled: no answer is ever sent, so
+                    # its retransmission after a reconnect (same end-to-end id, T flag) is a request like any other
+                    w._verif_never_answered = hbh + 2
             inject(w, c, fault)
         injected += 1
         w.advance(case.get("gap", 1))
@@ -168,7 +173,7 @@ def run_fault_phase(w, case):
     return injected
 
 
-def probe(w, case, host):
+def probe(w, case, host, retransmit_e2e=None):
     """A peer connects, completes CER/CEA, sends limit+2 requests; normalised transcript."""
     w.behaviour_fn = lambda rec: "answer"
     limit = case.get("limit", 0)
@@ -191,6 +196,12 @@ def probe(w, case, host):
         ans = [f for f in c.out if not f.is_request and f.h["hbh"] == 0xf200 + i]
         delivered = any(r["hbh"] == 0xf200 + i for r in w.requests_seen[n_seen0:])
         out["reqs"].append((delivered, ans[0].result_code() if ans else None, len(ans)))
+    # a retransmission (T flag) of a request that was never answered - on a fresh node: of one never seen
+    n_seen1 = len(w.requests_seen)
+    w.feed_msg(c, {"k": "REQ", "host": host, "hbh": 0xf2f0, "e2e": retransmit_e2e if retransmit_e2e is not None else 0xabcdef, "T": True})
+    w.advance(8)
+    ans = [f for f in c.refresh() if not f.is_request and f.h["hbh"] == 0xf2f0]
+    out["retransmit"] = (any(r["hbh"] == 0xf2f0 for r in w.requests_seen[n_seen1:]), ans[0].result_code() if ans else None, len(ans))
     # a DWR must still be answered
     w.feed_msg(c, {"k": "DWR", "host": host, "hbh": 0xf300, "e2e": 0xf300})
     out["dwa"] = len([f for f in c.refresh() if f.code == W.CMD_DW and not f.is_request and f.h["hbh"] == 0xf300])
@@ -231,12 +242,16 @@ def evaluate(case) -> Result:
             return nc is not None and nc.state != pm.PEER_CLOSED
         if any(c.host == host and not c.node_closed and node_thinks_live(c) for c in w.conns):
             host = "peer3.example"
-        got = probe(w, case, host)
+        rt = getattr(w, "_verif_never_answered", None) if host == "peer1.example" else None
+        if rt is not None:
+            res.classes.append("probe:retransmission-of-unanswered")
+        got = probe(w, case, host, rt)
         want = fresh_probe(case, host)
         for sig, d in W.monitor_threads(w):
             res.v(f"C14/thread-died/{sig}", d)
         if got != want:
-            kind = "cea" if got["cea"] != want["cea"] else "requests" if got["reqs"] != want["reqs"] else "watchdog"
+            kind = "cea" if got["cea"] != want["cea"] else "requests" if got["reqs"] != want["reqs"] else \
+                "retransmission" if got.get("retransmit") != want.get("retransmit") else "watchdog"
             res.v(f"C14/probe-differs/{kind}", f"after the faults the probe gives {got}, a fresh node gives {want}")
         outcomes = case.get("outcomes", ["answer"])
         res.nontrivial = injected >= 1 or any(o != "answer" for o in outcomes)
@@ -281,6 +296,13 @@ def shard_main(shard, nshards, tier, scale):
                     # more requests than slots, requester lost while some still wait for a slot
                     jobs.append({"app_kind": app_kind, "limit": limit, "outcomes": [outcome], "burst": 2,
                                  "faults": [["req2", "full", "eof"]] * reps, "gap": 1, "probe_host": "peer3.example"})
+    # requester lost while its request is being handled; afterwards it reconnects and retransmits that request
+    for limit in (0, 1, 2):
+        for outcome in ("slow", "very-slow"):
+            for f in ("eof", "reset"):
+                for sc in ("req", "req2"):
+                    jobs.append({"app_kind": "threading", "limit": limit, "outcomes": [outcome], "faults": [[sc, "full", f]],
+                                 "dwell": 0, "gap": 1, "probe_host": "peer1.example"})
     if shard == 0:
         rec.extra["grid_jobs"] = len(jobs)
     for case in jobs[shard::nshards]:
@@ -317,7 +339,7 @@ def run(tier, scale=1.0):
         rec.merge(d)
     required = {f"scenario:{s}": 1 for s in SCENARIOS} | {f"cut:{c}": 1 for c in CUTS} | \
                {f"fault:{f}": 1 for f in FAULTS} | {f"outcome:{o}": 1 for o in OUTCOMES} | \
-               {"limit:3": 1, "nfaults:3": 1, "app:basic": 1}
+               {"limit:3": 1, "nfaults:3": 1, "app:basic": 1, "probe:retransmission-of-unanswered": 1}
     return finish(rec, tier=tier, level="fault_enumeration", rule=RULE, assumptions=ASSUME, t0=t0,
                   required_classes=required,
                   extra_cov={"exhaustive_part": "single-fault grid: scenario x cut class x fault kind x handler outcome x (application kind, limit)"})
